@@ -6,6 +6,7 @@ import (
 	"bytes"
 	"fmt"
 	"io"
+	"os"
 	"testing"
 
 	"github.com/tink-crypto/tink-go/v2/insecurecleartextkeyset"
@@ -33,7 +34,7 @@ func TestMain(m *testing.M) {
 	core.DeclareProbes("lookahead-carried", "first-offset", "empty-plaintext", "exact-multiple", "write-spans-2-segments",
 		"zero-length-write", "zero-length-read", "read-buffer-smaller-than-segment", "unreader-replay-2nd-key", "unreader-replay-3rd+-key",
 		"error-in-header", "error-in-first-segment", "error-in-last-segment", "error-at-len-ct", "write-after-close", "double-close",
-		"ref-decodes-tink", "tink-decodes-ref", "ciphertext-longer-than-minimal-encoding", "crash-image-read-back", "keyset-through-serialization", "write-retried-after-error", "keyset-level", "subtle-level", "zero-nil-from-tink-reader")
+		"ref-decodes-tink", "tink-decodes-ref", "more-than-65536-segments", "crash-image-read-back", "keyset-through-serialization", "write-retried-after-error", "keyset-level", "subtle-level", "zero-nil-from-tink-reader")
 	core.Main(m, prop, "stream", map[string]string{
 		"streamingaead/subtle/noncebased": "real", "streamingaead/subtle aes_gcm_hkdf, aes_ctr_hmac": "real",
 		"streamingaead key types (aesgcmhkdf, aesctrhmac)": "real", "streamingaead factory + decrypt_reader": "real",
@@ -238,6 +239,7 @@ func readBack(r *core.Run, a tink.StreamingAEAD, data, aad []byte, rc readCfg, e
 	}
 	maxCalls := 2*expectLen + 2000
 	stall, zeroLen := 0, 0
+	bufs := map[int][]byte{}
 	for i := 0; ; i++ {
 		if i > maxCalls {
 			r.Violation("C07/no-progress", fmt.Sprintf("reader did not terminate within %d Read calls", maxCalls))
@@ -255,7 +257,13 @@ func readBack(r *core.Run, a tink.StreamingAEAD, data, aad []byte, rc readCfg, e
 				r.Probe("zero-length-read")
 			}
 		}
-		buf := make([]byte, size)
+		// one buffer per size is reused across the Read calls of a stream (the bytes are copied out below); a fresh
+		// 64 KiB buffer per call would cost gigabytes on a 65 537-segment stream
+		buf := bufs[size]
+		if buf == nil {
+			buf = make([]byte, size)
+			bufs[size] = buf
+		}
 		var n int
 		var err error
 		func() {
@@ -439,8 +447,19 @@ func writeOut(r *core.Run, a tink.StreamingAEAD, pt, aad []byte, chunks []int, f
 
 var ptKinds = []string{"0", "1", "first-1", "first", "first+1", "first+seg-1", "first+seg", "first+seg+1", "first+2seg", "random<=6seg", "long"}
 
+// hugeOdds: one run in hugeOdds+1 (with a small enough segment size) writes more than 2^16 segments, so that the
+// 32-bit segment counter of the nonce is exercised beyond its low 16 bits.
+const hugeOdds = 15000
+
+var forceHuge = os.Getenv("VSIM_FORCE_HUGE") != ""
+
 func drawPlainLen(t *rapid.T, p streamref.Params) (int, string) {
 	f, s := p.FirstPlain(), p.RestPlain()
+	// (rapid's integer generators favour boundary and small values, so the coin is a residue of a 32-bit draw)
+	if s <= 48 && (forceHuge || rapid.Uint32().Draw(t, "hugeStream")%(hugeOdds+1) == hugeOdds/2) {
+		segs := 65536 + rapid.IntRange(1, 40).Draw(t, "hugeExtraSegs")
+		return f + (segs-1)*s - rapid.IntRange(0, s-1).Draw(t, "ptTail"), "beyond-2^16-segments"
+	}
 	k := rapid.IntRange(0, len(ptKinds)-1).Draw(t, "ptKind")
 	switch ptKinds[k] {
 	case "0":
@@ -614,6 +633,11 @@ func runStream(t *rapid.T) {
 	}
 
 	fault := rapid.SampledFrom([]string{"F0", "F0", "F0", "F1", "F1", "F2", "F2", "F3", "F3", "F4", "F5", "F6", "F7", "F8"}).Draw(t, "fault")
+	if ptClass == "beyond-2^16-segments" {
+		// a 65 537-segment stream costs tens of milliseconds: one plain round trip in both directions, nothing else
+		r.Probe("more-than-65536-segments")
+		fault, wChunks, rc.bufSizes, rc.chunks = "F0", nil, nil, nil
+	}
 	ctLen := p.CiphertextLen(ptLen)
 	posClass := "-"
 	r.Logf("plaintext %d bytes (%s, %d segments, ciphertext %d bytes) aad=%s writeChunks=%v afterClose=%d fault=%s", ptLen, ptClass, nseg, ctLen, aadKind, wChunks, afterClose, fault)
